@@ -125,11 +125,21 @@ func (x *Exec) globalObj(st *State, v *types.Var) *Term {
 	m := x.heapGet(st, memComp(at.Elem()), x.memSort(at.Elem()))
 	// facts are about the entry memory: the variable is never assigned anywhere in the loaded packages
 	m0 := x.c.Const("H0_"+sanitize(memComp(at.Elem())), x.memSort(at.Elem()))
-	_ = m
+	if vals == nil {
+		if _, _, isInt := intInfo(at.Elem()); !isInt {
+			return ref
+		}
+		j := x.c.Bound("j", x.idxSort())
+		x.assumeGlobal(st, x.c.Forall([]*Term{j}, x.c.Eq(x.c.Select(x.c.Select(m0, ref), j), x.zeroScalar(at.Elem())), []*Term{x.c.Select(x.c.Select(m0, ref), j)}))
+		if m != m0 {
+			// the variable is never assigned, so the same holds in the current memory
+			x.assumeGlobal(st, x.c.Forall([]*Term{j}, x.c.Eq(x.c.Select(x.c.Select(m, ref), j), x.zeroScalar(at.Elem())), []*Term{x.c.Select(x.c.Select(m, ref), j)}))
+		}
+	}
 	for i, bv := range vals {
 		x.assumeGlobal(st, x.c.Eq(x.c.Select(x.c.Select(m0, ref), x.idxLit(int64(i))), x.intLit(at.Elem(), bv)))
 	}
-	x.assumed["package variable "+v.Pkg().Name()+"."+v.Name()+" is never assigned: elements equal its initialiser"] = true
+	x.assumed["package variable "+v.Pkg().Name()+"."+v.Name()+" is never assigned (slices of it are assumed not to be written through): elements equal its initialiser"] = true
 	return ref
 }
 
@@ -490,11 +500,10 @@ func (x *Exec) convertInt(st *State, t *Term, from, to types.Type, check bool) *
 		}
 		return t
 	}
-	// signed target: value must fit (obligation), else the math model would differ from the machine
-	if check {
-		x.safety(st, "conv", fmt.Sprintf("conversion %s -> %s keeps the value", from, to), x.c.And(x.c.Le(x.c.IntBig(tlo), t), x.c.Le(t, x.c.IntBig(thi))))
-	}
-	return t
+	// signed target: exact two's complement wrap-around: ((t + 2^(w-1)) mod 2^w) - 2^(w-1)
+	half := new(big.Int).Lsh(big.NewInt(1), uint(tw-1))
+	m := new(big.Int).Lsh(big.NewInt(1), uint(tw))
+	return x.c.Sub(x.c.Mod(x.c.Add(t, x.c.IntBig(half)), x.c.IntBig(m)), x.c.IntBig(half))
 }
 
 func (x *Exec) isOld(e *ast.ParenExpr) bool {
@@ -691,6 +700,10 @@ func (x *Exec) unary(st *State, e *ast.UnaryExpr) Val {
 
 func (x *Exec) overflowCheck(st *State, r *Term, t types.Type, what string) {
 	if x.mode != "math" || x.noOblig > 0 || x.specMode {
+		return
+	}
+	if x.con != nil && x.con.NoOverflow {
+		x.assumed["arithmetic in "+x.key+" does not overflow (counters stay far below 2^63): declared by the contract"] = true
 		return
 	}
 	if _, _, ok := intInfo(t); !ok {
